@@ -130,8 +130,8 @@ def secrets(case, srk_hash=None):
 
 def case_class(case):
     """Input class of a case for finding keys (no concrete numbers)."""
-    c0 = max(case["cont"], key=lambda c: (c["srk_set"] != "none", len(c["img"])))
-    feats = [f"v{case['cver']}", c0["kt"] if c0["srk_set"] != "none" else "unsigned"]
+    kts = sorted({c["kt"] for c in case["cont"] if c["srk_set"] != "none"})
+    feats = [f"v{case['cver']}", ",".join(kts) if kts else "unsigned"]
     if any(im["enc"] for c in case["cont"] for im in c["img"]):
         feats.append("enc")
     if any(im.get("isa") for c in case["cont"] for im in c["img"]):
@@ -139,6 +139,10 @@ def case_class(case):
     if any(im["off"] for c in case["cont"] for im in c["img"]):
         feats.append("explicit-off")
     return "+".join(feats)
+
+
+def must_refuse(case):
+    return bool(case.get("refuse")) or any(c["srk_set"] != "none" and (c["revoke"] >> c["used"]) & 1 for c in case["cont"])
 
 
 # ------------------------------------------------------------------ driving SPSDK
@@ -168,6 +172,7 @@ def build(case):
     """Run one case on the real code. Returns {"traces": [...], "layout": trace|None, "stats": {...}, "data": bytes|None}."""
     from spsdk.exceptions import SPSDKError
     from spsdk.image.ahab.ahab_image import AHABImage
+    from spsdk.utils.schema_validator import check_config
 
     work = os.path.join(scratch(), "c06", str(case["id"]))
     os.makedirs(work, exist_ok=True)
@@ -176,6 +181,10 @@ def build(case):
     out = {"traces": [], "layout": None, "stats": {"built": 0, "refused": 0, "tamper_walks": 0, "tamper_obs": 0}, "case": case}
     hist = []  # layout history events
     cfg = to_config(case, work)
+    try:
+        check_config(cfg, AHABImage.get_validation_schemas(case["family"], case["revision"]))
+    except SPSDKError as e:
+        raise Machinery(f"generated configuration of case {case['id']} is refused by SPSDK's own schema: {str(e)[:300]}") from e
     try:
         ahab = AHABImage.load_from_config(cfg)
         hist.append({"ev": "Load", "p": projection(ahab)})
@@ -203,6 +212,7 @@ def build(case):
     # ---- third observer on the valid export
     obs = {"ev": "SpsdkRoundTrip", "parseOk": False, "equalObj": False, "reexportEq": False, "verifyClean": False, "preParseClean": False, "crash": ""}
     parsed = None
+    verdict = {"reported": False, "how": "crash", "crash": "observer"}
     try:
         verdict, parsed = spsdk_verdict(case, data)
         obs["crash"] = verdict["crash"]
@@ -223,6 +233,10 @@ def build(case):
     sec = secrets(case, srk_hash)
     walk = AR.walk(data, sec)
     out["traces"].append({"id": f"{case['id']}/export", "kind": "export", "cls": cls, "exp": exp, "ev": walk + [obs]})
+    if must_refuse(case):
+        # SPSDK exported an input the format forbids (reported through the export trace); its verifier at least has to report the parsed file
+        out["traces"].append({"id": f"{case['id']}/invalid", "kind": "invalid", "cls": cls, "fcls": "revoked" if not case.get("refuse") else "collision",
+                              "exp": exp, "ev": [{"ev": "InvalidExported"}, dict(verdict, ev="SpsdkTamperVerdict")]})
     out["data_sha"] = sha(data.hex())
     # ---- history: update again, export again; parse, update, export
     if case.get("history"):
@@ -285,6 +299,8 @@ def declared_sizes_too_big(data, cver, max_cont, limit=8 << 20):
         c = ci * slot
         if c + 16 > len(data):
             break
+        if data[c + 3] != AR.TAG_CONT or data[c] != (2 if cver == 2 else 0):
+            continue  # SPSDK does not parse a container here
         n_img = data[c + 11]
         for i in range(n_img):
             o = c + 16 + 128 * i
@@ -296,8 +312,7 @@ def declared_sizes_too_big(data, cver, max_cont, limit=8 << 20):
 
 
 def layout_params(case):
-    revoked = any(c["srk_set"] != "none" and (c["revoke"] >> c["used"]) & 1 for c in case["cont"])
-    lay = {"cver": case["cver"], "slot": AR.slot_size(case["cver"]), "memory": case["memory"], "refuse": bool(case.get("refuse")) or revoked,
+    lay = {"cver": case["cver"], "slot": AR.slot_size(case["cver"]), "memory": case["memory"], "refuse": bool(case.get("refuse")),
            "explicit": [[im["off"] for im in c["img"]] for c in case["cont"]], "drift": False, "al": 0, "start": 0, "flat": []}
     if case.get("gen"):  # a case of AhabLayoutMC: the I clause (documented automatic placement) can be evaluated
         g = case["gen"]
@@ -329,7 +344,7 @@ def random_image(r, fam, **over):
           "boot": r.choice([0, 0, 1, 0x7FFF, r.getrandbits(15)]),
           "meta": [r.choice([0, 1, 0x3FF, r.getrandbits(10)]), r.choice([0, 0x3FF, r.getrandbits(10)]), r.choice([0, 0xFF, r.getrandbits(8)])],
           "load": load, "entry": r.choice([load, 0, (load + 0x400) & 0xFFFF_FFFF_FFFF_FFFF, r.getrandbits(64)]),
-          "isa": r.choice([None, None, None, 0x300, 0x500, 0x1000, 3, 0x2800]), "gap": r.choice([0, 0, 0, 0x400, 0x1000])}
+          "isa": r.choice([None, None, None, 0x300, 0x500, 0x1000, 0x30, 0x2800]), "gap": r.choice([0, 0, 0, 0x400, 0x1000])}
     im.update(over)
     return im
 
@@ -467,7 +482,7 @@ TRUE_FACTS = {
     "SrkTable": ["tagOk", "arrTagOk", "arrRsvZero", "recsOk", "sameType", "sizesOk", "recRsvZero", "keysOk", "srkDataTagOk", "dataHashOk", "srkHashOk"],
     "VerifySignature": ["tagOk", "ok"],
     "Blob": ["tagOk"],
-    "SpsdkRoundTrip": ["parseOk", "equalObj", "reexportEq", "verifyClean"],
+    "SpsdkRoundTrip": ["parseOk", "verifyClean", "equalObj", "reexportEq"],
 }
 
 
@@ -514,10 +529,17 @@ def decide(v, traces, cases_by_id, stats):
                 v.nontrivial(json.dumps(t["exp"], sort_keys=True))
             elif t["kind"] == "observe":
                 stats["tamper_reported"] += 1
+            elif t["kind"] == "invalid":
+                stats["invalid_reported"] = stats.get("invalid_reported", 0) + 1
             continue
         matched, length, evname = r
         ev = t["ev"][min(matched, len(t["ev"]) - 1)]
         wit = {"case": case, "trace": {"id": t["id"], "kind": t["kind"], "exp": t["exp"], "ev": t["ev"]}, "failed_event": matched + 1}
+        if t["kind"] == "invalid":
+            how = f"crash:{ev['crash']}" if ev.get("crash") else ev.get("how", "clean")
+            v.violation(f"C06/verify/invalid/{t['fcls']}/{how}/{t['cls']}",
+                        f"{t['id']}: SPSDK exported an image the format forbids ({t['fcls']}) and its own parse/verify() of that file says: {how}", wit)
+            continue
         if t["kind"] == "observe":
             if evname == "Resume":
                 continue  # the export itself was not accepted: reported there
@@ -538,7 +560,14 @@ def decide(v, traces, cases_by_id, stats):
             clause = failed_clause(ev)
             if evname == "VerifySignature" and clause == "relation" and (ev.get("key", 0) < 4 and (t["exp"]["cont"][ev.get("ci", 0)]["revoke"] >> ev.get("key", 0)) & 1):
                 clause = "revoked-key-exported"
-            v.violation(f"C06/rom/{evname}/{clause}/{t['cls']}",
+            kcls = t["cls"]
+            if evname == "ImageEntry" and case is not None:  # the class of the image concerned, not of the whole case
+                try:
+                    im = case["cont"][ev["ci"]]["img"][ev["i"]]
+                    kcls = f"v{case['cver']}+" + ("enc" if im["enc"] else "plain") + ("+size-ext" if im.get("isa") else "")
+                except (IndexError, KeyError):
+                    pass
+            v.violation(f"C06/rom/{evname}/{clause}/{kcls}",
                         f"{t['id']}: event #{matched + 1} ({evname}) of the walk over SPSDK's export is not a step of the acceptance automaton ({clause}): {json.dumps(ev)[:400]}", wit)
     return rej
 
@@ -568,6 +597,22 @@ def decide_layout(v, lays, cases_by_id, stats):
 
 
 # ------------------------------------------------------------------ the check
+CANARY = os.path.join(ROOT, "anchors", "C06", "canary.json")
+
+
+def load_canary(host):
+    """Frozen known-good traces; recorded from `host` when the anchor does not exist yet (first run on the unchanged tree)."""
+    if not os.path.exists(CANARY):
+        out = build(dict(host, tamper=0, id="canary", history=True))
+        good = next(t for t in out["traces"] if t["kind"] == "export")
+        if good["ev"][-1]["ev"] != "SpsdkRoundTrip":
+            raise Machinery(f"canary export did not build: {good['ev'][-1]}")
+        os.makedirs(os.path.dirname(CANARY), exist_ok=True)
+        with open(CANARY, "w") as f:
+            json.dump({"rom": {"id": "canary", "exp": good["exp"], "ev": good["ev"]}, "layout": out["layout"]}, f, indent=1)
+    return json.load(open(CANARY))
+
+
 ASSUMPTIONS = [
     "containers are built from configuration (AHABImage.load_from_config) with SRK set none or oem; NXP-signed containers, binary "
     "containers, the optional certificate, SM2 / PQC keys and the second (PQC) SRK table are not generated",
@@ -598,6 +643,7 @@ def run(tier):
     mc1 = tlc.mc("C06", "AhabRomMC", "AhabRomMC.cfg", env={"MC_FULL": "0" if quick else "1"}, heap="8g", workers=4, require_actions=acts, timeout=900)
     v.add_mc(mc1)
     rows = mc1.json_prints()
+    rows.sort(key=lambda x: json.dumps(x, sort_keys=True))  # TLC workers print in any order: the concretisation must not depend on it
     auth_rows = [x for x in rows if x["cls"] == "none"]
     tour = {}
     for x in rows:
@@ -619,7 +665,7 @@ def run(tier):
     acts2 = ("Update1", "Export1", "Update2", "Export2", "Parse", "Update3", "Export3", "Emit")
     mc2 = tlc.mc("C06", "AhabLayoutMC", "AhabLayoutMC.cfg", env={"MC_FULL": "0" if quick else "1"}, heap="8g", workers=4, require_actions=acts2, timeout=900)
     v.add_mc(mc2)
-    lay_rows = mc2.json_prints()
+    lay_rows = sorted(mc2.json_prints(), key=lambda x: json.dumps(x, sort_keys=True))
     if len(lay_rows) < 100:
         raise Machinery(f"AhabLayoutMC emitted only {len(lay_rows)} cases")
     say(f"[C06] AhabLayoutMC: {mc2.distinct} states, {len(lay_rows)} layout cases {v.timer.s()}s")
@@ -630,7 +676,7 @@ def run(tier):
         cases.append(auth_case(row, fams, k, len(cases)))
     for k, row in enumerate(lay_rows):
         cases.append(layout_case(row, fams, k, len(cases)))
-    n_random = 120 if quick else 2500
+    n_random = 100 if quick else 2500
     for k in range(n_random):
         cases.append(random_case(r, fams, len(cases), history=(k % 4 == 0), origin="random"))
     tc = tamper_cases(fams, tier, len(cases))
@@ -640,19 +686,27 @@ def run(tier):
     cases_by_id = {c["id"]: c for c in cases}
     say(f"[C06] {len(cases)} cases: {len(auth_rows)} from AhabRomMC, {len(lay_rows)} from AhabLayoutMC, {n_random} seeded random, {len(tc)} tamper hosts")
 
-    # ---- canary (before the bulk): one good trace accepted, the same trace with one corrupted field rejected
-    can = build(dict(tc[0], tamper=0, id="canary"))
-    good = next(t for t in can["traces"] if t["kind"] == "export")
-    if good["ev"][-1]["ev"] != "SpsdkRoundTrip":
-        raise Machinery(f"canary export did not build: {good['ev'][-1]}")
+    # ---- canary (before the bulk): one known-good trace accepted, the same trace with one corrupted field rejected.
+    # The good traces are frozen (anchors/C06/canary.json, recorded on the unchanged tree): the canary tests the binding of
+    # spec and TLC, it must not depend on what the SPSDK under test does.
+    can = load_canary(tc[0])
+    good = can["rom"]
     bad1, bad2, bad3 = (json.loads(json.dumps(good)) for _ in range(3))
     good["id"], bad1["id"], bad2["id"], bad3["id"] = "canary-good", "canary-bad-hash", "canary-bad-range", "canary-bad-offset"
     next(e for e in bad1["ev"] if e["ev"] == "ImageEntry")["hashOk"] = False
     next(e for e in bad2["ev"] if e["ev"] == "VerifySignature")["signedTo"] -= 8
     next(e for e in bad3["ev"] if e["ev"] == "ContainerHeader" and e["ci"] == 1)["at"] += 1024
-    rej, _ = tlc.tv("C06", "AhabRomTrace", [{"id": t["id"], "exp": t["exp"], "ev": t["ev"]} for t in (good, bad1, bad2, bad3)])
-    if set(rej) != {"canary-bad-hash", "canary-bad-range", "canary-bad-offset"}:
-        raise Machinery(f"canary failed: rejected {sorted(rej)} (expected the three corrupted traces only)")
+    sig_at = next(e for e in good["ev"] if e["ev"] == "VerifySignature")["sigAt"]
+
+    def observer(tid, at, reported):
+        return {"id": tid, "exp": good["exp"], "ev": [{"ev": "Resume", "ref": 1}, {"ev": "Tamper", "at": at, "bit": 0, "cls": "canary"},
+                                                      {"ev": "SpsdkTamperVerdict", "reported": reported, "how": "canary", "crash": ""}]}
+    batch = [{"id": t["id"], "exp": t["exp"], "ev": t["ev"]} for t in (good, bad1, bad2, bad3)]
+    batch += [observer("canary-obs-good", sig_at - 1, True), observer("canary-obs-unreported", sig_at - 1, False),
+              observer("canary-obs-outside", sig_at + 1, True)]  # sig_at + 1: header of the signature, not an authenticated byte
+    rej, _ = tlc.tv("C06", "AhabRomTrace", batch)
+    if set(rej) != {"canary-bad-hash", "canary-bad-range", "canary-bad-offset", "canary-obs-unreported", "canary-obs-outside"}:
+        raise Machinery(f"canary failed: rejected {sorted(rej)} (expected the five corrupted traces only)")
     lgood = can["layout"]
     lbad = json.loads(json.dumps(lgood))
     lgood["id"], lbad["id"] = "canary-layout-good", "canary-layout-bad"
@@ -660,7 +714,8 @@ def run(tier):
     rej, _ = tlc.tv("C06", "AhabLayoutTrace", [lgood, lbad], env={"MODE": "R"})
     if set(rej) != {"canary-layout-bad"}:
         raise Machinery(f"layout canary failed: rejected {sorted(rej)}")
-    v.extra["canary"] = "good export trace accepted; hashOk=false / signed range 8 bytes short / container 1 off its slot rejected; moved offset in the history rejected"
+    v.extra["canary"] = ("frozen good export trace and observer trace accepted; hashOk=false / signed range 8 bytes short / container 1 off its slot / "
+                         "unreported tamper / tamper outside the authenticated intervals rejected; moved offset in the layout history rejected")
     say(f"[C06] canary ok {v.timer.s()}s")
 
     # ---- execute on the real code
@@ -686,7 +741,8 @@ def run(tier):
     for ch in chunks:
         decide(v, ch, cases_by_id, stats)
     say(f"[C06] ROM traces decided {v.timer.s()}s: accepted {stats['accepted']}, refused as required {stats['refused_ok']}, "
-        f"tampered walks rejected {stats['tamper_rejected']}, tampering reported by SPSDK {stats['tamper_reported']} of {agg.get('tamper_obs', 0)}")
+        f"tampered walks rejected {stats['tamper_rejected']}, tampering reported by SPSDK {stats['tamper_reported']} of {agg.get('tamper_obs', 0)}, "
+        f"invalid exports reported by SPSDK's verifier {stats.get('invalid_reported', 0)}")
     decide_layout(v, [o["layout"] for o in outs if o.get("layout")], cases_by_id, stats)
     say(f"[C06] layout histories decided {v.timer.s()}s: {stats['layout_ok']} conform, I-spec conformant {stats['ispec_conformant']}")
 
@@ -708,7 +764,7 @@ def run(tier):
     if obs:
         v.sample(obs)
     v.extra.update(tamper_rejected=stats["tamper_rejected"], tamper_classes=sorted(stats["tamper_classes"]), tamper_reported_by_spsdk=stats["tamper_reported"],
-                   tamper_observed=agg.get("tamper_obs", 0), skipped_resource=agg.get("skipped_resource", 0), exports_accepted=stats["accepted"],
+                   tamper_observed=agg.get("tamper_obs", 0), invalid_exports_reported=stats.get("invalid_reported", 0), skipped_resource=agg.get("skipped_resource", 0), exports_accepted=stats["accepted"],
                    exports_refused_as_required=stats["refused_ok"], layout_histories=stats["layout_ok"], ispec_conformant=stats["ispec_conformant"],
                    drift_examples=stats["drift_examples"], families=[f"{f['family']}/{f['revision']}" for f in fams],
                    trusted_base="hashlib (SHA-2, SM3 via OpenSSL), cryptography: ECDSA verify, RSA-PSS verify, AES-CBC decrypt - called directly",
